@@ -7,8 +7,8 @@ theorem invF_estep (sh : Sh) (ppc : PPc) (kpc : Nat → KPc) (epc : Tid → EPc)
     (hts : estep0 sh t (epc t) e = some (sh', pc')) :
     InvF ⟨sh', ppc, kpc, upd epc t pc'⟩ := by
   obtain ⟨hbP, hbS, hbR, hbL, hbC, hbK, hl1, hl1c, hl2, hl3, hl3f, hl4, hfxK, hfxC, hfx3, hbT, hl4c, hl5⟩ := hA
-  obtain ⟨hfx, hf1, hf3, hf6k, hf6, hf4, hf5⟩ := h
-  simp only at hbP hbS hbR hbL hbC hbK hl1 hl1c hl2 hl3 hl3f hl4 hfxK hfxC hfx3 hbT hl4c hl5 hfx hf1 hf3 hf6k hf6 hf4 hf5
+  obtain ⟨hfx, hf1, hf3, hf6k, hf6, hf4, hf5, hg1⟩ := h
+  simp only at hbP hbS hbR hbL hbC hbK hl1 hl1c hl2 hl3 hl3f hl4 hfxK hfxC hfx3 hbT hl4c hl5 hfx hf1 hf3 hf6k hf6 hf4 hf5 hg1
   generalize hpc : epc t = pc at hts
   have hC := hbC t
   rw [hpc] at hC
